@@ -340,7 +340,7 @@ def run(ctx):
             "rekeys": st.integers(0, 3).flatmap(lambda k: st.lists(st.sampled_from(["c", "s"]), min_size=min(k, 1), max_size=2)),
         }
     )
-    ctx.explore(honest, lambda c: _dispatch(ctx, c), ctx.scale(30, 3000), shrink=False)
+    ctx.explore(honest, lambda c: _dispatch(ctx, c), ctx.scale(30, 800), shrink=False)
 
 
 def replay(ctx, case):
